@@ -109,8 +109,13 @@ def _check(spec, tier, seed, replay, res, scratch, t0):
         replay_obj = json.load(open(replay))
 
     # 1. hygiene
-    bad = core.hygiene()
-    res.ob("hygiene: no Admitted/Axiom/Parameter/guard switches in coq/", "hygiene", not bad, "\n".join(bad))
+    roots = [t[:-1] if t.endswith(".vo") else t for t in
+             spec.get("coq_targets", ["props/%s.vo" % prop]) + spec.get("model_targets", [])]
+    closure = core.coq_closure(roots)
+    bad = core.hygiene(roots)
+    res.ob("hygiene: no Admitted/admit/Axiom/Parameter/guard switches in the %d Coq files this property depends on"
+           % len(closure), "hygiene", not bad, "\n".join(bad))
+    res.closure = [os.path.relpath(f, core.COQ) for f in closure]
 
     # 2. translators
     for g in spec.get("gens", []):
